@@ -20,6 +20,8 @@ ones (a record is appended when the continuation starts, i.e. at `m_stack_state.
 import TbbVerif.Proofs.C20.Facts
 import TbbVerif.Proofs.C20.SleepN2
 import TbbVerif.Proofs.C20.Disp
+import TbbVerif.Proofs.C20.PoolFacts
+import TbbVerif.Proofs.C20.WaitStep
 import TbbVerif.Model.C20Gen
 import TbbVerif.Generated.C20
 
@@ -330,6 +332,259 @@ example :
      lost { Sleep.asCoded with pred := fun n _ => n } false .recall [0, 0, 1, 1, 0, 0, 0, 0, 0],
      lost { Sleep.asCoded with scanSeesResume := false } true .resume [1, 1, 0, 0, 0, 0, 0, 0, 0, 0, 0, 0],
      lost { Sleep.asCoded with advertises := false } false .resume [0, 0, 0, 0, 0, 0, 0, 1, 1]) = (true, true, true, true) := by
+  decide
+
+/-! ## The dispatcher pool of an arena: coroutine cache, post-resume actions, several suspensions
+
+`Model/C20Pool.lean`: any number `nt` of slot threads (thread `t` owns the default dispatcher `t`; `workers[t]` says whether
+it is a worker), any number of foreign threads, any number of coroutine dispatchers created on demand, a co-cache of any
+capacity `cap ≥ 1` (the code: `coCacheFactor * num_slots`), any programs (suspend / resume / take a resume task / nested
+loops / critical sections / wait notifications / leave and enter the arena / arena destruction) and EVERY schedule.  Each
+dispatcher carries a full `SuspendPoint` core and every pool step applies that model's own step functions, so what the
+earlier statements say holds for every dispatcher of the pool (`multi_suspend_sequence`).  The statement-order facts the model
+is built on are regenerated from the source (`genPoolSkel`); `generated_pool_skeleton` pins them. -/
+
+/-- the reachable pool state -/
+abbrev preach (nt cap : Nat) (workers : List Bool) (progs : List (List Pool.Op)) (sched : List Tid) : Pool.PSt :=
+  ((Pool.sys genPoolSkel nt cap workers progs).run sched).p
+
+/-- The regenerated skeleton of `arena_co_cache::pop` / `internal_suspend` / `task_dispatcher::resume` /
+`co_local_wait_for_all` / `do_post_resume_action` / `recall_point` / `r1::resume` / `get_self_recall_task` is the one the
+pool model is proved for (every flag: see `Pool.Skel`), the numeric values of `post_resume_action` are the model's, and the
+co-cache has at least one entry per slot. -/
+theorem generated_pool_skeleton :
+    Pool.Skel.ok genPoolSkel = true ∧
+    Pool.Act.enc .invalid = Generated.C20.actInvalid ∧ Pool.Act.enc .registerWaiter = Generated.C20.actRegisterWaiter ∧
+    Pool.Act.enc .cleanup = Generated.C20.actCleanup ∧ Pool.Act.enc .notify = Generated.C20.actNotify ∧
+    Pool.Act.enc .none = Generated.C20.actNone ∧ 0 < Generated.C20.coCacheFactor := by decide
+
+/-- **Every suspension of every dispatcher resumes exactly once** (the chain of `m_prev_suspend_point` hand-overs
+generalised to any number of dispatchers, threads and suspensions; a task that suspends several times, and suspensions
+nested on coroutine stacks, are just several rounds of one dispatcher and rounds of several dispatchers).  For EVERY
+dispatcher `d` of the pool — a slot's default dispatcher or a coroutine, however often it was suspended, cached, reused —
+its suspend point satisfies everything `resume_exactly_once`, `no_resume_without_call`, `stack_state_chains` and
+`owner_recall_once` state for a single suspend point (`ExactlyOnce`): never continued by two threads, each completed user
+suspension had exactly one `resume` call and exactly one publication of the resume task (by the resumer iff chain
+A→S→N→A, by the leaver iff A→N→S→N→A), recalls are continued by the owner only, cached coroutines re-enter by A→S→A, rounds
+and continuations alternate, a called resume is never forgotten, no resume task exists before the call. -/
+theorem multi_suspend_sequence (nt cap : Nat) (hc : 0 < cap) (workers : List Bool) (progs : List (List Pool.Op)) (sched : List Tid)
+    (s : Pool.PSt) (hs : s = preach nt cap workers progs sched) (d : Pool.DId) (hd : d < s.nd) :
+    ExactlyOnce (s.sp d) ∧ (s.sp d).owner = (if d < s.nt then some d else none) := by
+  have hb : Pool.Base s := by rw [hs]; exact Pool.base_reachable genPoolSkel generated_pool_skeleton.1 nt cap hc workers progs sched
+  exact ⟨exactlyOnce_of_inv _ (hb.inv d hd), hb.owner d hd⟩
+
+/-- **The co-cache never hands a dispatcher out twice.**  In every reachable state:
+ 1. `my_co_cache.pop()` never returned anything else than an idle cached dispatcher (`cacheErr` is never set), and the
+    next `pop` will not either;
+ 2. every dispatcher occupies at most one slot of the ring; one that does is a live coroutine flagged `cached` and is
+    IDLE: no thread runs it, leaves it or holds it, no resume task of it is queued or about to be published, no suspend
+    point of it is handed out, its owner is not recalled, its `m_stack_state` is `suspended`;
+ 3. every dispatcher is in at most one place: running on one thread (`stk`), held by one thread as the target of a switch
+    (`tk`), in the cache, or new; while a thread is still leaving it (`lv`) nobody runs it or holds it and it is not cached;
+ 4. `cleanup()` destroys only dispatchers that are in the ring (hence idle). -/
+theorem cocache_no_double_handout (nt cap : Nat) (hc : 0 < cap) (workers : List Bool) (progs : List (List Pool.Op)) (sched : List Tid)
+    (s : Pool.PSt) (hs : s = preach nt cap workers progs sched) :
+    s.cacheErr = false ∧
+    (∀ r' d, Ring.pop true s.ring = (r', some d) → d < s.nd ∧ s.dead d = false ∧ Pool.Idle (s.sp d)) ∧
+    (∀ d, Ring.cnt s.ring d ≤ 1) ∧
+    (∀ d, 1 ≤ Ring.cnt s.ring d → d < s.nd ∧ s.nt ≤ d ∧ (s.sp d).cached = true ∧ s.dead d = false ∧ Pool.Idle (s.sp d)) ∧
+    (∀ d, d < s.nd → bnat (s.sp d).stk.isSome + bnat (s.sp d).tk.isSome + bnat (s.sp d).cached + bnat (s.sp d).fresh ≤ 1 ∧
+        ((s.sp d).lv.isSome = true → (s.sp d).stk = none ∧ (s.sp d).tk = none ∧ (s.sp d).cached = false)) ∧
+    (∀ d, d ∈ (Ring.cleanup true s.ring).2 → 1 ≤ Ring.cnt s.ring d) := by
+  have hb : Pool.Base s := by rw [hs]; exact Pool.base_reachable genPoolSkel generated_pool_skeleton.1 nt cap hc workers progs sched
+  have h4 : ∀ d, 1 ≤ Ring.cnt s.ring d → d < s.nd ∧ s.nt ≤ d ∧ (s.sp d).cached = true ∧ s.dead d = false ∧ Pool.Idle (s.sp d) := by
+    intro d hd
+    obtain ⟨h1, h2, h3⟩ := Pool.base_cnt_pos s hb d hd
+    exact ⟨h1, hb.cachedCo d h1 h2, h2, h3, Pool.base_cached_idle s hb d h1 h2⟩
+  refine ⟨hb.noCacheErr, ?_, Pool.base_cnt_le s hb, h4, ?_, ?_⟩
+  · intro r' d hp
+    have := h4 d (Ring.cnt_pop s.ring r' d hb.wf hp).1
+    exact ⟨this.1, this.2.2.2.1, this.2.2.2.2⟩
+  · intro d hd
+    have := inv_places _ (hb.inv d hd)
+    exact ⟨this.1, fun hl => ⟨(this.2 hl).1, (this.2 hl).2.1, (this.2 hl).2.2.1⟩⟩
+  · intro d hd
+    exact ((Ring.cnt_cleanup s.ring hb.wf (Pool.base_cnt_le s hb)).2.1 d).mp hd |>.1
+
+/-- **A dispatcher is destroyed only when it is idle, and is never used afterwards.**  A destroyed dispatcher (`dead`:
+replaced in the ring by `push`, or destroyed by `cleanup()` at arena destruction) is a coroutine that was in the cache;
+in every later state it is still idle (nobody runs / leaves / holds it, no resume task, no outstanding suspend point)
+and occupies no slot of the ring, so no `pop` can return it.  The arena references (`ref_external` taken by
+`create_coroutine`, released by the cleanup action before its `push`) are held exactly by the coroutines outside the
+cache; so when none is held — the condition under which the arena may be destroyed — every live coroutine sits idle in
+the cache. -/
+theorem dispatcher_destroyed_only_when_idle (nt cap : Nat) (hc : 0 < cap) (workers : List Bool) (progs : List (List Pool.Op))
+    (sched : List Tid) (s : Pool.PSt) (hs : s = preach nt cap workers progs sched) :
+    (∀ d, s.dead d = true → d < s.nd ∧ s.nt ≤ d ∧ Pool.Idle (s.sp d) ∧ Ring.cnt s.ring d = 0) ∧
+    (∀ d, d ∈ s.refH ↔ (s.nt ≤ d ∧ d < s.nd ∧ (s.sp d).cached = false)) ∧
+    (s.refH = [] → ∀ d, s.nt ≤ d → d < s.nd → (s.sp d).cached = true ∧ Pool.Idle (s.sp d)) := by
+  have hb : Pool.Base s := by rw [hs]; exact Pool.base_reachable genPoolSkel generated_pool_skeleton.1 nt cap hc workers progs sched
+  refine ⟨?_, hb.refs, ?_⟩
+  · intro d hd
+    obtain ⟨h1, h2⟩ := hb.deadc d hd
+    refine ⟨h1, hb.cachedCo d h1 h2, Pool.base_cached_idle s hb d h1 h2, ?_⟩
+    rw [hb.cnt d]; simp [hd]
+  · intro he d h1 h2
+    have : (s.sp d).cached = true := by
+      by_cases hc : (s.sp d).cached = true
+      · exact hc
+      · have := (hb.refs d).mpr ⟨h1, h2, by simpa using hc⟩
+        rw [he] at this; simp at this
+    exact ⟨this, Pool.base_cached_idle s hb d h2 this⟩
+
+/-- **Each switch is followed by exactly one post-resume action: the one in force at the switch, executed by the thread
+that switched, on the new stack, before that thread does anything else.**  For every thread, in every reachable state,
+the list of (action, argument) pairs in force at its switches (`setLog`) and the list of pairs it executed after a switch
+(`runLog`) are equal whenever the thread is not between a switch and the end of `do_post_resume_action`; in between,
+exactly the latest pair is outstanding and it is what `my_post_resume_action` / `my_post_resume_arg` hold; and in that
+window (and while a `r1::resume` of the thread has its push outstanding) NO step of the thread consumes an operation of
+its program — it cannot take a task, run user code, leave the arena.  The logs are the thread's own: a step of another
+thread never changes them. -/
+theorem post_resume_action_runs_once_on_new_stack (nt cap : Nat) (workers : List Bool) (progs : List (List Pool.Op))
+    (sched : List Tid) (s : Pool.PSt) (hs : s = preach nt cap workers progs sched) (t : Tid) :
+    (Pool.inFlight (s.thr t).pc = false → (s.thr t).setLog = (s.thr t).runLog) ∧
+    (Pool.inFlight (s.thr t).pc = true → (s.thr t).setLog = ((s.thr t).act, (s.thr t).arg) :: (s.thr t).runLog) ∧
+    (Pool.inFlight (s.thr t).pc = true → ∀ op, (Pool.stepT genPoolSkel s t op).o = .stay) ∧
+    (∀ t' op, t' ≠ t → (Pool.stepT genPoolSkel s t' op).s.thr t = s.thr t) := by
+  have hl : Pool.LogOK (s.thr t) := by rw [hs]; exact Pool.logOK_reachable genPoolSkel generated_pool_skeleton.1 nt cap workers progs sched t
+  exact ⟨hl.2, hl.1, fun h op => Pool.stepT_inFlight genPoolSkel s t op h,
+         fun t' op ht => Pool.stepT_thr_other genPoolSkel s t' t op (fun e => ht e.symm)⟩
+
+/-- **The critical-task state of a stack is kept across a suspension, and selects the stream of its resume task.**
+(`suspend_point_type::m_is_critical`, which the property text names, is never read or written in this tree; the state is
+`!m_properties.critical_task_allowed` of the dispatcher, `crit` in the model, and `r1::resume` publishes into the critical
+stream iff it is set.)  In every reachable state, for every dispatcher nobody runs — suspended, being left, held for a
+continuation, cached — `crit` is what it was when the stack was left (`critAt`): no step of any thread changes it, so
+at the continuation the task finds the state it suspended with; and whenever a resume task of the dispatcher is queued it
+sits in the stream selected by that state. -/
+theorem critical_task_state_kept (nt cap : Nat) (hc : 0 < cap) (workers : List Bool) (progs : List (List Pool.Op)) (sched : List Tid)
+    (s : Pool.PSt) (hs : s = preach nt cap workers progs sched) (d : Pool.DId) :
+    ((s.sp d).stk = none → s.crit d = s.critAt d) ∧ (0 < (s.sp d).queue → s.critQ d = s.critAt d) := by
+  have h : Pool.Crit s := by rw [hs]; exact Pool.crit_reachable genPoolSkel generated_pool_skeleton.1 nt cap hc workers progs sched
+  exact ⟨h.kept d, h.queued d⟩
+
+/-! ### non-vacuity of the pool model -/
+
+set_option maxRecDepth 8000
+
+/-- one slot thread, one foreign resumer, cache of 4: the thread suspends (a coroutine is created), the foreign thread
+resumes, the thread — on the coroutine's bottom loop — takes the resume task, goes back (cleanup action: the coroutine is
+cached); then it leaves and the arena is destroyed with the coroutine in the cache -/
+example :
+    let g := (Pool.sys Pool.asCoded 1 4 [false]
+      [[.enterLoop, .suspend, .cbReturn, .take 0 false, .exitLoop, .leaveArena, .arenaCleanup], [.resume 0]]).run
+      [0,0,0,0,0,0,0,0,0,0, 1,1, 0,0,0,0,0,0,0]
+    g.p.err.isNone = true ∧ g.p.nd = 2 ∧ g.p.ring.buf = [some 1, none, none, none] ∧ (g.p.sp 0).done.length = 1 ∧
+    (g.p.sp 1).done.length = 1 ∧ (g.p.thr 0).runLog = [(.cleanup, 1), (.none, 0)] ∧ g.p.refH = [] ∧ (g.p.thr 0).cur = 0 := by
+  decide
+
+/-- a task that runs a critical task suspends: the resume task goes to the critical stream, the state is still set afterwards -/
+example :
+    let g := (Pool.sys Pool.asCoded 1 4 [false] [[.enterLoop, .critBegin, .suspend, .cbReturn, .take 0 false], [.resume 0]]).run
+      [0,0,0,0,0,0,0,0,0,0,0, 1,1]
+    let g2 := (Pool.sys Pool.asCoded 1 4 [false] [[.enterLoop, .critBegin, .suspend, .cbReturn, .take 0 false], [.resume 0]]).run
+      [0,0,0,0,0,0,0,0,0,0,0, 1,1, 0,0,0,0,0,0]
+    (g.p.sp 0).queue = 1 ∧ g.p.critQ 0 = true ∧ g.p.crit 0 = true ∧ (g2.p.sp 0).stk = some 0 ∧ g2.p.crit 0 = true := by
+  decide
+
+example :
+    let g := (Pool.sys Pool.asCoded 1 4 [false]
+      [[.enterLoop, .suspend, .cbReturn, .take 0 false, .exitLoop, .leaveArena, .arenaCleanup], [.resume 0]]).run
+      [0,0,0,0,0,0,0,0,0,0, 1,1, 0,0,0,0,0,0,0, 0,0,0]
+    g.p.err.isNone = true ∧ g.p.freed = true ∧ g.p.dead 1 = true ∧ g.p.ring.buf = [none, none, none, none] := by
+  decide
+
+/-- ... and a `pop` that does not clear its slot (the flag the translator extracts) hands the cached coroutine out while
+it is still in the ring: with a one-entry cache the second suspension gets the coroutine from the cache, and the stale slot
+makes the third `pop` return it again while the thread is running on it — the model flags the double hand-out -/
+example :
+    let sk := { Pool.asCoded with popClears := false }
+    let g := (Pool.sys sk 1 1 [false]
+      [[.enterLoop, .suspend, .cbReturn, .take 0 false, .suspend, .cbReturn, .suspend, .cbReturn], [.resume 0]]).run
+      [0,0,0,0,0,0,0,0,0,0, 1,1, 0,0,0,0,0,0, 0,0,0,0,0,0,0,0,0, 0,0,0,0]
+    g.p.cacheErr = true := by
+  decide
+
+/-! ## The waits that cover a suspended task
+
+`Model/C20Wait.lean`: any number of stacks with their frames (task bodies that hold a reference of a wait object until they
+return; wait frames that return only at count zero), the wait tree (a node holds a reference of its parent until its own
+count is zero), any number of threads that attach to / detach from stacks, every sequence of operations. -/
+
+/-- the wait objects above `w` in the wait tree -/
+inductive Wait.Anc (s : Wait.St) : Nat → Nat → Prop where
+  | refl (w : Nat) : Wait.Anc s w w
+  | up (w c p : Nat) : Wait.Anc s w c → s.par c = some p → Wait.Anc s w p
+
+abbrev wreach (nt : Nat) (ops : List (Tid × Wait.Op)) : Wait.St := Wait.run genWaitCfg (Wait.init nt) ops
+
+/-- regenerated: in `function_task::execute` (task_group::run), `start_for::execute` (parallel_for) and
+`delegated_task::execute` (task_arena::execute) the body is called BEFORE `finalize` releases the reference of the wait
+object; `recall_point` guards the outermost level (see `generated_pool_skeleton`) -/
+theorem generated_wait_facts : genWaitCfg.releaseAfterBody = true ∧ genWaitCfg.recallGuard = true := by decide
+
+/-- **Every wait that transitively covers a suspended task is incomplete.**  In every reachable state, for every task
+frame `task w` on ANY stack `d` — in particular a stack nobody runs (`att d = none`: the task is suspended) — and every
+wait object `a` above `w` in the wait tree (the group's wait_context for task_group::run; the chunk's wait_node, its
+ancestors and the algorithm's root wait_context for parallel_for; the delegate's wait_context for task_arena::execute):
+the reference count of `a` is not zero, so NO wait frame on `a` can return (an `exitWait` of any thread on it changes
+nothing).  And the frames of a stack are changed only by the thread that is attached to it: while the task is
+suspended nothing releases its reference; the reference is released by `finish` — the body has returned — which only
+the thread that continued the stack can do. -/
+theorem wait_covers_suspended_task (nt : Nat) (ops : List (Tid × Wait.Op)) (s : Wait.St) (hs : s = wreach nt ops) :
+    (∀ d w, Wait.Frame.task w ∈ s.frames d → ∀ a, Wait.Anc s w a →
+        1 ≤ s.cnt a ∧
+        (∀ t d' rest, s.on t = some d' → s.frames d' = Wait.Frame.wait a :: rest → Wait.step genWaitCfg s t .exitWait = s)) ∧
+    (∀ t op d, s.att d ≠ some t → (Wait.step genWaitCfg s t op).frames d = s.frames d) := by
+  have hi : Wait.WInv s := by
+    rw [hs]; exact Wait.run_inv genWaitCfg generated_wait_facts.1 generated_wait_facts.2 ops _ (Wait.init_inv nt)
+  refine ⟨?_, fun t op d hd => Wait.step_frames genWaitCfg s t op d hi hd⟩
+  intro d w hf a ha
+  have hpos : 1 ≤ s.cnt a := by
+    induction ha with
+    | refl => exact Wait.cnt_pos_of_frame s hi d w hf
+    | up c p _ hp ih => exact Wait.cnt_pos_parent s hi c p ih hp
+  refine ⟨hpos, ?_⟩
+  intro t d' rest ho hfr
+  have : s.cnt a ≠ 0 := by omega
+  simp [Wait.step, ho, hfr, this]
+
+/-- **A wait's completion is observed only on the stack it lives on, by the thread that owns that stack.**  The outermost
+wait frame of a stack that is a thread's own call stack (`owner d = some o`) is never left by another thread (`wrong` is
+never set): a thread that runs on a borrowed stack and finds the outermost wait complete cannot return into the owner's
+frames — its `exitWait` changes nothing (the code: `recall_point` hands the stack back and recalls the owner). -/
+theorem no_wait_completion_from_wrong_stack (nt : Nat) (ops : List (Tid × Wait.Op)) (s : Wait.St) (hs : s = wreach nt ops) :
+    s.wrong = false ∧
+    (∀ t d w, s.on t = some d → s.frames d = [Wait.Frame.wait w] → s.owner d ≠ none → s.owner d ≠ some t →
+        Wait.step genWaitCfg s t .exitWait = s) ∧
+    (∀ t d, s.on t = some d → s.att d = some t) := by
+  have hi : Wait.WInv s := by
+    rw [hs]; exact Wait.run_inv genWaitCfg generated_wait_facts.1 generated_wait_facts.2 ops _ (Wait.init_inv nt)
+  refine ⟨hi.wrong, ?_, fun t d ho => (hi.onatt t d ho).1⟩
+  intro t d w ho hfr h1 h2
+  have hg := generated_wait_facts.2
+  by_cases hc : s.cnt w = 0
+  · simp [Wait.step, ho, hfr, hc, hg, h1, h2]
+  · simp [Wait.step, ho, hfr, hc]
+
+/-! ### non-vacuity of the wait model -/
+
+/-- thread 0 waits on a task_group (wait object 0) and runs a task of it which suspends (the thread leaves stack 0 for a
+coroutine stack 2); thread 1 continues stack 0, the body returns there, the count drops to zero; thread 1 — on a borrowed
+stack — cannot leave the outermost wait; the owner comes back and does -/
+example :
+    let s1 := wreach 2 [(0, .newWait none), (0, .spawn 0), (0, .enterWait 0), (0, .begin 0), (0, .detach), (0, .attach 2)]
+    let s2 := Wait.run genWaitCfg s1 [(1, .detach), (1, .attach 0), (1, .finish), (1, .exitWait)]
+    let s3 := Wait.run genWaitCfg s2 [(1, .detach), (0, .detach), (0, .attach 0), (0, .exitWait)]
+    s1.cnt 0 = 1 ∧ s1.att 0 = none ∧ s1.frames 0 = [.task 0, .wait 0] ∧ s2.cnt 0 = 0 ∧ s2.frames 0 = [.wait 0] ∧
+    s3.frames 0 = [] ∧ s3.wrong = false := by
+  decide
+
+/-- ... and a finalize that released the reference before the body ran would let the wait return over the suspended task -/
+example :
+    let cfg : Wait.Cfg := { releaseAfterBody := false, recallGuard := true }
+    let s := Wait.run cfg (Wait.init 1) [(0, .newWait none), (0, .spawn 0), (0, .enterWait 0), (0, .begin 0)]
+    s.cnt 0 = 0 ∧ s.frames 0 = [.task 0, .wait 0] := by
   decide
 
 end TbbVerif.C20
